@@ -21,6 +21,7 @@ EXPLANATION = (
     " Added after seed round 6: LF4 also requires the normalisation sum to be taken per substitution key."
     " Added after seed round 7: LF6 the mass reserved for explicitly initialised heads is summed over the heads with multiplicity."
     " Added after seed round 8: LF7 the evidence probability of an example is stored as evaluate_evidence() returned it."
+    " Added after seed round 10: LF8 SimpleDDNNFEvaluator._evaluate_evidence initialises the weights without the evidence weights and fixes every evidence literal with _set_value(abs(ev), ev > 0)."
 )
 TECHNIQUE = "static analysis: decision tables of the accumulation loops of the EM update (paired accumulators), summed-set == scaled-set rule"
 LEVEL_TEXT = EXPLANATION
@@ -316,6 +317,50 @@ def rule_lf7(repo, col):
                    construct="%s._call_internal: evidence probability modified" % cname, function="%s._call_internal" % cname)
 
 
+def rule_lf8(repo, col):
+    """SimpleDDNNFEvaluator._evaluate_evidence (the number LFI reports as the likelihood of an example and divides the counts by) is the weight of the circuit with every evidence
+    literal FIXED BUT KEEPING ITS OWN WEIGHT: the weights are initialised without evidence (set_evidence replaces the weight of an observed literal by one) and each evidence
+    literal is fixed with _set_value(abs(ev), ev > 0)"""
+    c = repo.cls("problog.ddnnf_formula", "SimpleDDNNFEvaluator")
+    m = c.module
+    f = c.methods.get("_evaluate_evidence")
+    init = c.methods.get("_initialize")
+    if f is None or init is None or len(init.params) != 2 or len(init.node.args.defaults) != 1:
+        raise AnalysisError("SimpleDDNNFEvaluator._evaluate_evidence / _initialize(with_evidence=...) not found")
+    # _initialize(flag): evidence weights are installed (set_evidence) exactly when the flag holds
+    flag = init.params[1]
+    inst = [n for n in ast.walk(init.node) if isinstance(n, ast.If) and norm(n.test) == flag and any(isinstance(x, ast.Call) and norm(x.func) == "self.set_evidence" for b in n.body for x in ast.walk(b))]
+    if len(inst) != 1:
+        raise AnalysisError("_initialize: `if %s:` installing the evidence weights not found" % flag)
+    ok_d, default = const_value(init.node.args.defaults[0])
+    calls = [x for x in walk_no_nested(f.node) if isinstance(x, ast.Call) and norm(x.func) == "self._initialize"]
+    if len(calls) != 1:
+        raise AnalysisError("_evaluate_evidence: one call of self._initialize expected")
+    call = calls[0]
+    if call.args:
+        okv, val = const_value(call.args[0])
+    elif call.keywords:
+        okv, val = const_value(call.keywords[0].value) if call.keywords[0].arg == flag else (False, None)
+    else:
+        okv, val = ok_d, default
+    if not okv:
+        raise AnalysisError("_evaluate_evidence: argument of _initialize not constant")
+    col.decide("LF8", m, call, not val, "_evaluate_evidence initialises the weights without the evidence weights",
+               "_evaluate_evidence calls %s: with %s true every observed literal gets weight one (set_evidence), so the returned number is the normalisation constant of the conditioned "
+               "circuit, not P(evidence) - the log-likelihood LFI reports is no longer the data log-likelihood and decreases from iteration to iteration on partially observed data"
+               % (norm(call), flag), construct="_evaluate_evidence: weights initialised with the evidence weights", function="SimpleDDNNFEvaluator._evaluate_evidence")
+    loops = [n for n in walk_no_nested(f.node) if isinstance(n, ast.For) and norm(n.iter) == "self.evidence()" and isinstance(n.target, ast.Name)]
+    fixed = False
+    for lp in loops:
+        v = lp.target.id
+        for x in ast.walk(lp):
+            if isinstance(x, ast.Call) and norm(x.func) == "self._set_value" and len(x.args) == 2 and norm(x.args[0]) == "abs(%s)" % v and norm(x.args[1]).replace(" ", "") in ("%s>0" % v, "0<%s" % v):
+                fixed = True
+    col.decide("LF8", m, loops[0] if loops else f.node, fixed, "_evaluate_evidence fixes every evidence literal with _set_value(abs(ev), ev > 0)",
+               "_evaluate_evidence does not fix the evidence literals with self._set_value(abs(ev), ev > 0) for ev in self.evidence(): the value it returns is not the weight of the worlds "
+               "that agree with the evidence", construct="_evaluate_evidence: evidence literals not fixed", function="SimpleDDNNFEvaluator._evaluate_evidence")
+
+
 def run(repo, col):
     col.rule("LF1", "expected counts: both accumulators weighted by the multiplicity, per index")
     col.rule("LF2", "new parameter = true-count / parent-count under the same index")
@@ -329,3 +374,5 @@ def run(repo, col):
     rule_lf6(repo, col)
     col.rule("LF7", "the evidence probability of an example is stored unmodified")
     rule_lf7(repo, col)
+    col.rule("LF8", "the d-DNNF evaluator's evidence probability keeps the weights of the observed literals")
+    rule_lf8(repo, col)
